@@ -305,8 +305,65 @@ pub fn run(tier: &str) -> Result<Report, String> {
         }
     }
     rep.set("deep_nests", json!(deep_n));
+    // contexts of networks built programmatically, whose variables are DECLARED in an order that is not the
+    // lexicographic one (every lib-param-bn parser sorts names, RegulatoryGraph::new keeps the given order):
+    // a proposition is accepted iff it names a network variable, whatever the declaration order
+    {
+        use biodivine_lib_param_bn::RegulatoryGraph;
+        let orders: Vec<Vec<String>> = vec![
+            vec!["b".into(), "a".into()],
+            vec!["c".into(), "a".into(), "b".into()],
+            (0..12).map(|i| format!("v{i}")).collect(),
+            vec!["z".into(), "y".into(), "x_1".into(), "A".into(), "a".into()],
+            vec!["e".into(), "d".into(), "c".into(), "b".into(), "a".into()],
+            vec!["a".into(), "b".into(), "c".into()],
+        ];
+        let mut n_decl = 0u64;
+        for names in &orders {
+            let bn = BooleanNetwork::new(RegulatoryGraph::new(names.clone()));
+            let mut ctxs = vec![SymbolicContext::new(&bn).map_err(|e| format!("harness: {e}"))?];
+            ctxs.push(biodivine_hctl_model_checker::mc_utils::get_extended_symbolic_graph(&bn, 2)?.symbolic_context().clone());
+            let mut candidates: Vec<(String, bool)> = names.iter().map(|n| (n.clone(), true)).collect();
+            for extra in ["q", "v12", "a_", "ab", "v1_", "x", "v", "aa", "B"] {
+                if !names.iter().any(|n| n == extra) {
+                    candidates.push((extra.to_string(), false));
+                }
+            }
+            for (ci, c) in ctxs.iter().enumerate() {
+                for (n1, ok1) in &candidates {
+                    for (n2, ok2) in &candidates {
+                        for shape in ["{1}", "~{1} | EX {2}", "!{x}: ({x} & {1} & AX {2})", "3{y}: @{y}: ({2} EU {1})"] {
+                            if !shape.contains("{2}") && n1 != n2 {
+                                continue;
+                            }
+                            let text = shape.replace("{1}", n1).replace("{2}", n2);
+                            let expect_ok = *ok1 && (*ok2 || !shape.contains("{2}"));
+                            n_decl += 1;
+                            let got = guarded(std::panic::AssertUnwindSafe(|| {
+                                let tree = parse_extended_formula(&text).map_err(|e| format!("parse: {e}"))?;
+                                let a = validate_props_and_rename_vars(tree, c).is_ok();
+                                let b = parse_and_minimize_extended_formula(c, &text).is_ok();
+                                Ok::<(bool, bool), String>((a, b))
+                            }));
+                            let what = match got {
+                                Ok(Ok((a, b))) if a == expect_ok && b == expect_ok => None,
+                                Ok(Ok((a, b))) => Some(format!("validate_props_and_rename_vars accepts: {a}, parse_and_minimize_extended_formula accepts: {b}, expected: {expect_ok}")),
+                                Ok(Err(e)) => Some(format!("harness: {e}")),
+                                Err(p) => Some(format!("panic: {p}")),
+                            };
+                            if let Some(w) = what {
+                                rep.violations.push(Violation { case: json!({"kind": "none"}), what: format!("network with variables declared as {names:?} (context {ci}), formula `{text}`: {w}"), size: 50 + names.len() });
+                            }
+                        }
+                    }
+                }
+            }
+        }
+        rep.evaluations += n_decl;
+        rep.set("declaration_order_cases", json!(n_decl));
+    }
     rep.sample(json!({"input": "(!{xx}: (3{x}: (@{xx}: {x})))", "expected_output": "(!{x}: (3{xx}: (@{x}: {xx})))"}));
     rep.sample(json!({"input": "(!{x}: (@{y}: a))", "expected": "Err (jump target y is free)"}));
-    rep.rule = format!("every tree with 1..{s_max} nodes over {} printed, parsed by the library and preprocessed against the extended symbolic context (2 spare variable sets) of a parametrised network with variables a,b: accepted iff the independent scope checker accepts; output must equal the tree renamed by nesting depth, be de-Bruijn-equal to the input, have #quantified names = nesting depth = collect_unique_hctl_vars, consistent stored text, and be a fixed point of preprocessing; then every tree with up to 8 (thorough 9) nodes over the binder-focused tiny alphabet {{a, x, y, AX, &, !, 3, @}}; plus {} longer hand-written shapes and 24 deep nests (7..12, 20, 40 quantifiers on one branch, fresh names / names equal to the internal ones in reverse order); plus every name of a symbolic variable of that context that is not a network variable (spare state variables, parameter variables) used as a proposition in 5 surroundings, as a tree and (where the syntax can spell it) as text: must be rejected; distinct_nontrivial = number of distinct accepted (well-scoped) trees", alpha.describe(), special.len());
+    rep.rule = format!("every tree with 1..{s_max} nodes over {} printed, parsed by the library and preprocessed against the extended symbolic context (2 spare variable sets) of a parametrised network with variables a,b: accepted iff the independent scope checker accepts; output must equal the tree renamed by nesting depth, be de-Bruijn-equal to the input, have #quantified names = nesting depth = collect_unique_hctl_vars, consistent stored text, and be a fixed point of preprocessing; then every tree with up to 8 (thorough 9) nodes over the binder-focused tiny alphabet {{a, x, y, AX, &, !, 3, @}}; plus {} longer hand-written shapes and 24 deep nests (7..12, 20, 40 quantifiers on one branch, fresh names / names equal to the internal ones in reverse order); plus every name of a symbolic variable of that context that is not a network variable (spare state variables, parameter variables) used as a proposition in 5 surroundings, as a tree and (where the syntax can spell it) as text: must be rejected; plus six networks built with RegulatoryGraph::new whose variables are declared in non-lexicographic order (b,a / c,a,b / v0..v11 / ...): every (pair of) variable names and near-miss names in 4 surroundings is accepted iff all are network variables; distinct_nontrivial = number of distinct accepted (well-scoped) trees", alpha.describe(), special.len());
     Ok(rep)
 }
